@@ -10,10 +10,17 @@
      start  {inst, write, ok, err}                 a server was started on the current files (ok = FALSE: it did not start;
                                                    the asset events then say "nothing served")
      asset  {inst, asset, listed, cls, diff}       answers of that server for the request pool of one asset
-     tl     {inst, asset, rep, N, n0, tfdt, dur}   read-mode instance with a metadata root: segments n0, n0+1, ... as served
+     tl     {inst, asset, rep, N, n0, t0, tfdt, dur, ovf}  read-mode instance with a metadata root: segments n0, n0+1, ... as
+                                                   served; tfdt relative to the first one (t0); ovf: some value is more than
+                                                   2^31 ticks away (cannot be contiguous for the assets used: all true times
+                                                   of a window are far closer)
      mtl    {inst, asset, rep, N, t, d, st, tfdt}  the scanning server (inst -1) and the same instances: first N+2 entries (t, d)
                                                    declared by the SegmentTimeline MPD; st / tfdt: status and first decode time
-                                                   of the segment served for $Time$ = t (-1: none)
+                                                   of the segment served for $Time$ = t; t and tfdt relative to t0 = the
+                                                   first declared t; st = -200: status 200 without a parseable segment; ovf as above
+     far    {inst, asset, rep, N, L, TS, k, st, w, r, exp}  generated admissible assets: video segments k*N, k*N+1 far from the
+                                                   epoch: status and decode time as a pair over the loop L (ticks); exp: starts
+                                                   of segments 0, 1 by construction
      files  {inst, write, files}                   metadata files after the start ([[path, digest], ...], sorted)
    The file kinds are tracked with the oracle's own operators; a damage / remove event that is impossible on the tracked
    files blocks the trace (=> machinery error, never a verdict). *)
@@ -84,7 +91,7 @@ Asset == /\ e.ev = "asset"
 
 \* C15.contig on what the cache-loaded server serves (the length of the window is not part of the clause)
 Tl == /\ e.ev = "tl"
-      /\ Clause("C15.contig", Contig(e.tfdt, e.dur),
+      /\ Clause("C15.contig", ~e.ovf /\ Contig(e.tfdt, e.dur),
                 [asset |-> e.asset, rep |-> e.rep, first_gap_after |-> FirstGap(e.tfdt, e.dur), root |-> root, write |-> write,
                  corrupt |-> \E r \in DOMAIN FsOf(e.asset) : Corrupt(FsOf(e.asset)[r])])
       /\ UNCHANGED <<ref, file, root, write, wsnap, wvalid>>
@@ -93,10 +100,20 @@ Tl == /\ e.ev = "tl"
 \* entry is served (status 200) with the declared start as its decode time
 Mtl == /\ e.ev = "mtl"
        /\ e.asset \in DOMAIN ref
-       /\ Clause("C15.contig", DeclaredOK(e.t, e.d, e.st, e.tfdt),
+       /\ Clause("C15.contig", ~e.ovf /\ DeclaredOK(e.t, e.d, e.st, e.tfdt),
                  [asset |-> e.asset, rep |-> e.rep, kind |-> "declared-timeline", first_bad |-> FirstBadDeclared(e.t, e.d, e.st, e.tfdt),
                   t |-> e.t, d |-> e.d, st |-> e.st, tfdt |-> e.tfdt, root |-> root, write |-> write,
                   corrupt |-> \E r \in DOMAIN FsOf(e.asset) : Corrupt(FsOf(e.asset)[r])])
+       /\ UNCHANGED <<ref, file, root, write, wsnap, wvalid>>
+
+\* C15.contig over many loops, against the construction of the asset (N segments, loop of L ticks, exp[j] = start of
+\* segment j in the first loop): segment k*N + j is served with decode time k*L + exp[j] exactly (pairs [w, r] over L)
+Far == /\ e.ev = "far"
+       /\ e.asset \in DOMAIN ref
+       /\ Clause("C15.contig", FarOK(e.k, e.st, e.w, e.r, e.exp),
+                 [asset |-> e.asset, rep |-> e.rep, kind |-> "far-exact", k |-> e.k, L |-> e.L, st |-> e.st, w |-> e.w, r |-> e.r,
+                  exp |-> e.exp, root |-> root, write |-> write,
+                  corrupt |-> \E x \in DOMAIN FsOf(e.asset) : Corrupt(FsOf(e.asset)[x])])
        /\ UNCHANGED <<ref, file, root, write, wsnap, wvalid>>
 
 \* C15.idem: a write-mode start that follows a write-mode start with no file action in between leaves the same bytes
@@ -108,7 +125,7 @@ Files == /\ e.ev = "files"
             ELSE UNCHANGED <<wsnap, wvalid>>
          /\ UNCHANGED <<ref, file, root, write>>
 
-Step == l <= Len(Trace) /\ (Ref \/ Hdr \/ Damage \/ Remove \/ Start \/ Asset \/ Tl \/ Mtl \/ Files) /\ l' = l + 1
+Step == l <= Len(Trace) /\ (Ref \/ Hdr \/ Damage \/ Remove \/ Start \/ Asset \/ Tl \/ Mtl \/ Far \/ Files) /\ l' = l + 1
 Done == l = Len(Trace) + 1 /\ Consumed(Len(Trace)) /\ UNCHANGED vars
 Spec == Init /\ [][Step \/ Done]_vars
 Accepted == NoBad
